@@ -317,6 +317,8 @@ func init() {
 		lf.natList("contextChangeEmail", bytesOf(constString(p, "CONTEXT_CHANGE_EMAIL")))
 		lf.natList("contextSetIDEmail", bytesOf(constString(p, "CONTEXT_SET_ID_EMAIL")))
 
+		lf.raw("/-! ptttype.STR_GUEST (api/user_utils.go refuses it as the target of an e-mail change) -/\n")
+		lf.natList("strGuest", bytesOf(constString(l.load("ptttype"), "STR_GUEST")))
 		lf.raw("/-! api/auth_utils.go: token creation -/\n")
 		for _, c := range [][2]string{{"CreateToken", "createAccess"}, {"CreateRefreshToken", "createRefresh"}, {"CreateEmailToken", "createEmail"}} {
 			r := tokReadCreate(p, c[0])
